@@ -312,26 +312,4 @@ Section Live.
     destruct H as [_ [H|[H1 H2]]]; [left; auto|right; split; auto; apply pos_eq_spec; auto].
   Qed.
 
-  Lemma pinv_step s e s' : Inv s -> OInv s -> PInv s -> step s e = Some s' -> PInv s'.
-  Proof.
-    intros I O P H.
-    pose proof (oinv_step _ _ _ _ _ _ _ _ I O H) as O'. pose proof (inv_step _ _ _ _ _ _ _ _ I H) as I'.
-    pose proof (o_tile O') as T'. pose proof (o_tile O) as T. pose proof (o_tok O) as Ot.
-    apply step_Step in H.
-    pose proof (p_sc P) as Psc. pose proof (p_st P) as Pst. pose proof (p_sr P) as Psr.
-    pose proof (p_res P) as Pres. pose proof (p_unit P) as Pun.
-    destruct H as [i Hi L|i Hi L|i t Hi L Hn|i Hi L Hn Hf|i Hi L Hn Hf
-                  |i Hi L Hq|i ib q wu b Hi L Hq Hd|i wub b2 Hi L Hw Hb|i Hi L Hq|i wb q os b Hi L Hq Hd
-                  |i Hi L Hq|i wb q Hi L Hq
-                  |i ib e d f Hi L Hc Hl|i ib e d f Hi Hc Hl|i wb Hi L
-                  |i wbo ib wb0 e d f Hi L Hw Hc Hl|i wbo ib wb0 e d f Hi Hw Hc Hl|i wb Hi L
-                  |i wb Hi L|i wb Hi L|i wb Hi L
-                  |m Hr Hs|Hr Hin|d rest Hr Hin Hl L|Hr L|wb q Hw Hq|Hw Hq Hf|wb Hw L|Hall Hf Hr].
-    8: { exfalso. pose proof (i_ready I _ _ Hi) as R. apply (ready_seq_ultra enc_empty collect) in R. pose proof (o_ultra O). congruence. }
-    15-19: (exfalso; pose proof (noseq I Ot Hi) as Z; discriminate Z).
-    all: constructor; simp; auto.
-    all: try solve [ rewrite Hq in *; eapply ksorted_tail; eauto ].
-    all: idtac "REM"; match goal with |- ?G => idtac G end.
-  Abort.
-
 End Live.
